@@ -218,3 +218,28 @@ F("D43h", "C20", RG, "    if seed is None:\n      seed = int.from_bytes(os.urand
 F("D43i", "C20", RG, "      output = state >> output_size_bits\n", "      output = state % 2**output_size_bits\n", "R-C20-CONST", "TruncLcg outputs the lower half")
 F("D43j", "C20", RG, "    \"java\": JavaRandom(),\n", "    \"java\": Rng(),\n", "R-C20-REGISTRY", "registry holds the abstract base")
 T("D43k", "C20", RG, "    if n % 8 != 0:\n      seq >>= -n % 8\n    return seq\n\n\nclass Shake128", "    seq >>= -n % 8\n    return seq\n\n\nclass Shake128", "Urandom: unconditional shift by -n % 8 (0 when 8 | n)")
+
+# ---------------------------------------------------------------------------------- C12
+NS = L + "randomness_tests/nist_suite.py"
+XS = L + "randomness_tests/extended_nist_suite.py"
+F("D29", "C12", NS, "[6272, 128, 4, 9, [0.1174, 0.2430, 0.2493, 0.1752, 0.1027, 0.1124]]", "[6272, 128, 4, 9, [0.1174, 0.2340, 0.2493, 0.1752, 0.1027, 0.1124]]", "R-C12-TABLES", "longest-run digit transposition")
+F("D29b", "C12", NS, "[0.0882, 0.2092, 0.2483, 0.1933, 0.1208, 0.0675, 0.0727]", "[0.0882, 0.2092, 0.2483, 0.1933, 0.1208, 0.0657, 0.0727]", "R-C12-TABLES", "M=10^4 row: a *different* literal is not covered by the known finding")
+F("D30", "C12", NS, "      7: 904960,\n", "      7: 904690,\n", "R-C12-TABLES", "Universal min_n typo")
+F("D30b", "C12", NS, "      6: (5.2177052, 2.954),\n", "      6: (5.2177025, 2.954),\n", "R-C12-TABLES", "Universal mean typo")
+F("D30c", "C12", NS, "          0.28878809, 0.57757619, 0.12835026, 0.00523879, 0.00004657, 0.00000010", "          0.28878809, 0.57757619, 0.12853026, 0.00523879, 0.00004657, 0.00000010", "R-C12-TABLES", "rank precomputed typo")
+F("D30d", "C12", XS, "    1.0, 0.711212, 0.133636, 0.00528545,", "    1.0, 0.711212, 0.133663, 0.00528545,", "R-C12-TABLES", "asymptotic rank SF typo")
+F("D30e", "C12", NS, "    pi = [1 / 96, 1 / 32, 1 / 8, 1 / 2, 1 / 4, 1 / 16, 1 / 48]\n  else:\n    pi = [1 / 48, 1 / 16, 1 / 4, 1 / 2, 1 / 8, 1 / 32, 1 / 96]",
+  "    pi = [1 / 48, 1 / 16, 1 / 4, 1 / 2, 1 / 8, 1 / 32, 1 / 96]\n  else:\n    pi = [1 / 96, 1 / 32, 1 / 8, 1 / 2, 1 / 4, 1 / 16, 1 / 48]", "R-C12-TABLES", "linear complexity parity tables swapped")
+F("D30f", "C12", NS, "    pi[k] = t**2 * (1 - t)**(k - 1)", "    pi[k] = t**2 * (1 - t)**k", "R-C12-TABLES", "random excursions exponent")
+F("D31", "C12", NS, "  if n < 100:\n    raise InsufficientDataError(\"Not enough input\")", "  if n < 10:\n    raise InsufficientDataError(\"Not enough input\")", "R-C12-MINSIZE", "BlockFrequency minimum lowered")
+F("D31b", "C12", NS, "    if n < 38 * r * c:", "    if n < 38 * r:", "R-C12-MINSIZE", "rank minimum misses a factor")
+F("D31c", "C12", NS, "  if block_size * 200 > n:", "  if block_size * 20 > n:", "R-C12-MINSIZE", "linear complexity minimum blocks")
+F("D31d", "C12", XS, "  if n < size * size:\n", "  if n < size:\n", "R-C12-MINSIZE", "large rank minimum")
+F("D31e", "C12", NS, "  if n < min_n[6]:", "  if n < min_n[7]:", "R-C12-MINSIZE", "universal minimum is the L=7 bound")
+F("D32", "C12", NS, "    maxs = max(0, max(total_cnt, default=0))", "    maxs = max(total_cnt, default=0)", "R-C12-CUSUM", "remove the clamp (fixed defect returns)")
+F("D32b", "C12", NS, "    mins = min(0, min(total_cnt, default=0))", "    mins = min(total_cnt)", "R-C12-CUSUM", "remove the clamp on mins")
+F("D32c", "C12", NS, "  for p in params[::-1]:\n    if n >= p[0]:", "  for p in params:\n    if n >= p[0]:", "R-C12-CONSIST", "ladder scanned from the smallest row")
+F("D32d", "C12", NS, "      k = v_upper - v_lower\n", "      k = v_upper - v_lower + 1\n", "R-C12-CONSIST", "degrees of freedom off by one")
+F("D32e", "C12", NS, "    v[min(k, r - rank)] += 1", "    v[min(k, rank)] += 1", "R-C12-CONSIST", "rank class indexed by rank instead of deficiency")
+T("D32f", "C12", NS, "  if n < 100:\n    raise InsufficientDataError(\"Not enough input\")", "  if n <= 99:\n    raise InsufficientDataError(\"Not enough input\")", "n < 100 written as n <= 99")
+T("D32g", "C12", NS, "    maxs = max(0, max(total_cnt, default=0))", "    maxs = max(max(total_cnt, default=0), 0)", "clamp arguments swapped")
